@@ -60,9 +60,18 @@ public:
   explicit constant(const char c[], category_t t = 0)
     : constant(std::string(c), t) {}
 
+  /// \return the value as a string literal of the target language (double
+  ///         quotes and backslashes escaped)
   [[nodiscard]] std::string display(terminal_param_t, format) const final
   {
-    return quote_str(val_);
+    std::string out("\"");
+    for (const char c : val_)
+    {
+      if (c == '"' || c == '\\')
+        out += '\\';
+      out += c;
+    }
+    return out + "\"";
   }
 
   ///
